@@ -112,12 +112,12 @@ func (p *Source) Open(_ context.Context, r pconnector.SourceOpenRequest) (pconne
 		}
 	}
 	if p.Cfg.OpenErr != "" {
-		p.W.Log.Add("Open", "conn", p.Cfg.ID, "kind", "source", "idx", idx, "pos", raw, "ok", false)
+		p.W.Log.Add("Open", "conn", p.Cfg.ID, "key", p.Cfg.ID, "kind", "source", "idx", idx, "pos", raw, "ok", false)
 		return pconnector.SourceOpenResponse{}, toErr(p.Cfg.OpenErr)
 	}
 	p.run++
 	p.opens++
-	p.W.Log.Add("Open", "conn", p.Cfg.ID, "kind", "source", "idx", idx, "pos", raw, "ok", true, "run", p.run,
+	p.W.Log.Add("Open", "conn", p.Cfg.ID, "key", p.Cfg.ID, "kind", "source", "idx", idx, "pos", raw, "ok", true, "run", p.run,
 		"pruned", p.pruned)
 	if idx >= 0 {
 		p.next = idx
@@ -301,7 +301,7 @@ func (p *Source) Teardown(context.Context, pconnector.SourceTeardownRequest) (pc
 	defer p.mu.Unlock()
 	p.tears++
 	p.running = false
-	p.W.Log.Add("Teardown", "conn", p.Cfg.ID, "kind", "source", "run", p.run)
+	p.W.Log.Add("Teardown", "conn", p.Cfg.ID, "key", p.Cfg.ID, "kind", "source", "run", p.run)
 	p.cond.Broadcast()
 	return pconnector.SourceTeardownResponse{}, toErr(p.Cfg.TeardownErr)
 }
